@@ -184,6 +184,9 @@ def check_struct(cx, fn, rep, facts, mutable):
                 is_ref_atoms.append(x[2])
             elif x[0] == 'is' and is_ungrouped(x[1], fieldty) and x[2] == 'Type::Reference':
                 is_ref_atoms.append(x[3])
+            elif x[0] == 'arm-else' and is_ungrouped(x[1], fieldty) and len(x[2]) == 1 and x[2][0].replace('syn::', '').startswith('Type::Reference('):
+                # the `_` arm of `match ungroup(ty) { Type::Reference(_) => .., _ => .. }`
+                is_ref_atoms.append(False)
             elif x[0] == 'is' and x[1] == fieldty and x[2] == 'Type::Reference':
                 S.bad('SUM-DEREF', 'reference-test-sees-group', 'the test "the designated field is a reference" looks at the written type without peeling parentheses / the invisible group of a `$t:ty` fragment', b)
                 is_ref_atoms.append(x[3])
